@@ -172,16 +172,21 @@ def part_types_validate(chk):
             chk.finding('validate-target-binary', f'wac_types::validate_target returns {"Ok" if got else "Err"} but the world/component pair is {"" if want else "not "}conforming: {json.dumps(case)[:900]} -> {nat}', case)
         else:
             chk.finding('validate-target-binary', f'wac_types::validate_target verdict {got} differs from the conformance predicate {want} (rule-level model; native replay of the realisation gave {nat}); calls {hit.st.trace[:6]}', case or {'model': 'unrealised'})
+    # translator validation: for each verdict, some execution path must have a realisable witness on which the real function agrees.
+    # (the realiser can only express wide <: narrow; a model whose uninterpreted sub-verdicts it cannot express is skipped, not counted)
     for want in (True, False):
-        c = [And(o.cond(), (o.value.disc == bv64(0)) == BoolVal(want)) for o in outs if o.kind == 'ret']
-        r, m = chk.solve(f'validate_target: witness {want}', base + [Or(c)])
-        if r != 'sat':
-            if want: raise Inconclusive('validate_target: no conforming witness (vacuous)')
-            continue
-        case = realise_types(m, dict(Wimp=Wimp, Wexp=Wexp, Cimp=Cimp, Cexp=Cexp, implicit=implicit), K)
-        if case is None: continue
-        nat = chk.native(case); chk.sample({'case': case, 'native': nat})
-        if nat.get('ok') != want and ev_int(m, implicit.len()) == 0: raise Inconclusive(f'validate_target witness for {want} gives {nat} natively on {json.dumps(case)[:600]}')
+        tried = 0; agreed = False; last = None
+        for o in [o for o in outs if o.kind == 'ret']:
+            if tried >= 8 or agreed: break
+            r, m = chk.solve(f'validate_target: witness {want}', base + [o.cond(), (o.value.disc == bv64(0)) == BoolVal(want), implicit.len() == bv64(0)])
+            if r != 'sat': continue
+            case = realise_types(m, dict(Wimp=Wimp, Wexp=Wexp, Cimp=Cimp, Cexp=Cexp, implicit=implicit), K)
+            if case is None: continue
+            tried += 1; nat = chk.native(case); last = (case, nat)
+            if nat.get('ok') == want:
+                agreed = True; chk.sample({'case': case, 'native': nat})
+        if tried and not agreed: raise Inconclusive(f'validate_target: none of {tried} realised witnesses for verdict {want} is confirmed natively; last {json.dumps(last[0])[:500]} -> {last[1]}')
+        if not tried and want: raise Inconclusive('validate_target: no conforming witness (vacuous)')
 
 WIDE = {'instance': [['p', {'value': {'prim': 'u32'}}], ['q', {'value': {'prim': 'u32'}}]]}; NARROW = {'instance': [['p', {'value': {'prim': 'u32'}}]]}
 def realise_types(m, maps, K):
